@@ -45,7 +45,12 @@ RULE = ("cases = validator expression (random trees to depth 4 over instance_of,
         "bounds, scripted probes); objects whose ATTRIBUTE PROTOCOL LIES (dunders stored on the instance, catch-all __getattr__ "
         "answering or raising, a __class__ property naming another class, SimpleNamespace / module with dunder attributes, "
         "metaclasses scripting __instancecheck__ or only __subclasscheck__) as values for every leaf validator and as options / "
-        "bounds parameters; thorough additionally enumerates every "
+        "bounds parameters; in_ OPTIONS whose membership is not item equality: bytearray / str / bytes (subsequence), range, "
+        "interval classes with value membership (with and without __eq__, __hash__, __iter__; iterating the ends, every int, or "
+        "something not contained), scripted containers whose __contains__ and __iter__ disagree or raise, plus look-alikes "
+        "(deque, UserList, OrderedDict, array), each with values inside / on the edge / outside / incomparable -- the oracle is "
+        "`value in options` on the container itself except for the documented list/dict/set -> tuple conversion; "
+        "thorough additionally enumerates every "
         "expression of depth <= 2 over a reduced leaf pool x a reduced value pool; non-trivial = the constructor "
         "succeeded (a call was made); distinct = distinct JSON case")
 ASSUMPTIONS = [
@@ -243,6 +248,35 @@ OPTS = [
 ]
 
 
+# option containers whose membership is NOT "equal to one of the iterated items": subsequence tests, value ranges,
+# containers whose __contains__ and __iter__ disagree -- unhashable and hashable, iterable and not.  Each with values
+# inside / on the edge / outside / of an incomparable type.
+def _iv(lo, hi, **f):
+    return ["interval", lo, hi, f]
+
+
+_IV_VALUES = [I(1), I(0), I(10), I(5), I(11), I(-1), ["float", (0.5).hex()], ["float", (9.5).hex()], S("a"), NONE, ["bool", True], I(15)]
+SPECIAL_OPTS = [
+    (["bytearray", "abc"], [["bytes", "a"], ["bytes", "ab"], ["bytes", "bc"], ["bytes", "ac"], ["bytes", ""], I(97), I(1), S("a"), ["bytes", "abc"]]),
+    (["bytearray", ""], [["bytes", ""], I(0), ["bytes", "a"]]),
+    (_iv(0, 10, eq=True, iter="ends"), _IV_VALUES), (_iv(0, 10, eq=True, iter="ints"), _IV_VALUES),
+    (_iv(0, 10, eq=True, iter="outside"), _IV_VALUES), (_iv(0, 10, eq=True), _IV_VALUES),
+    (_iv(0, 10, eq=True, hashable=True, iter="ends"), _IV_VALUES), (_iv(0, 10, iter="ends"), _IV_VALUES),
+    (_iv(0, 10, hashable=True, iter="ends"), _IV_VALUES), (_iv(0, 10, hashable=True), _IV_VALUES), (_iv(3, 3, eq=True, iter="ints"), [I(3), I(4), ["float", (3.0).hex()]]),
+    (S("abc"), [S("a"), S("ab"), S("bc"), S("ac"), S(""), S("abc"), I(1), ["bytes", "a"]]),
+    (["bytes", "abc"], [["bytes", "ab"], ["bytes", "ac"], I(97), I(1), S("a")]),
+    (["range", 0, 5], [I(0), I(4), I(5), ["float", (2.0).hex()], ["float", (2.5).hex()], ["bool", True], S("a")]),
+    (["deque", [I(1), S("a")]], [I(1), S("a"), I(2), ["bool", True]]), (["userlist", [I(1), S("a")]], [I(1), S("a"), I(2)]),
+    (["ordereddict", [[I(1), S("x")], [S("a"), I(2)]]], [I(1), S("a"), S("x"), I(2)]), (["array", [1, 2]], [I(1), I(3), S("a")]),
+    (H("ctrue_iter", contains=["ret", ["bool", True]], iter=["yield", [I(1)], None], eq=["ret", ["bool", False]]), [I(1), I(2), S("a")]),
+    (H("cfalse_iter", contains=["ret", ["bool", False]], iter=["yield", [I(1), S("a")], None], eq=["ret", ["bool", False]]), [I(1), S("a"), I(2)]),
+    (H("craise_iter", contains=["raise", "userTypeErr"], iter=["yield", [I(1)], None], eq=["ret", ["bool", False]]), [I(1), I(2)]),
+    (H("cval_iter", contains=["raise", "keyError"], iter=["yield", [I(1)], "zeroDiv"], eq=["ret", ["bool", False]]), [I(1), I(2)]),
+    (H("ctrue_iter_hashable", contains=["ret", ["bool", True]], iter=["yield", [I(1)], None]), [I(1), I(2)]),
+    (H("ctrue_iterraise", contains=["ret", ["bool", True]], iter=["raise", "typeError"], eq=["ret", ["bool", False]]), [I(1), I(2)]),
+]
+
+
 LIAR_OPTS = [["liar", {"name": "optc", "inst": ["__contains__", "__iter__", "__getitem__"]}], ["ns", [["__contains__", ["fn", "len"]]]],
              ["liar", {"name": "optg", "getattr": "all"}]]
 LIAR_BOUNDS = [["liar", {"name": "bnd", "inst": ["__gt__", "__ge__", "__lt__", "__le__"]}], ["liar", {"name": "bndg", "getattr": "all"}],
@@ -252,6 +286,10 @@ LIAR_BOUNDS = [["liar", {"name": "bnd", "inst": ["__gt__", "__ge__", "__lt__", "
 def hostile_opts(rng):
     if rng.random() < 0.25:
         return rng.choice(LIAR_OPTS)
+    if rng.random() < 0.2:
+        lo = rng.choice([0, 1, -2])
+        return _iv(lo, lo + rng.choice([0, 3, 10]), eq=rng.random() < 0.6, hashable=rng.random() < 0.4,
+                   iter=rng.choice([None, "ends", "ints", "outside"]))
     k = rng.choice(K_SOME)
     n = rng.randrange(10 ** 6)
     c = rng.randrange(5)
@@ -711,7 +749,13 @@ def gen_leaf(ctx, allow_junk=True):
             ctx.suggest.append(liar_values(rng, "__instancecheck__"))
         return {"instOf": {"t": ctx.add("types", d)}}
     if c < 0.30:
+        if rng.random() < 0.22:
+            d, vals = rng.choice(SPECIAL_OPTS)
+            ctx.suggest += rng.sample(vals, min(4, len(vals)))
+            return {"in_": {"o": ctx.add("opts", d)}}
         d = hostile_opts(rng) if rng.random() < 0.2 else rng.choice(OPTS)
+        if d[0] == "interval":
+            ctx.suggest += [I(d[1]), I(d[2]), I(d[2] + 1), I(d[1] - 1), ["float", (d[1] + 0.5).hex()], S("a")]
         if d[0] in ("list", "tuple", "set", "frozenset") and d[1]:
             ctx.suggest.append(rng.choice(d[1]))
         elif d[0] == "dict" and d[1]:
@@ -1267,6 +1311,23 @@ def _orders(g, full, rng):
     return out
 
 
+def opts_specs(rng, full):
+    """in_ over every option container whose membership is not item equality (and the look-alikes whose membership
+    is), under wrappers, each over a history of values inside / on the edge / outside / of an incomparable type;
+    the second expression is built from an equal container (== and hash clause)"""
+    for d, vals in SPECIAL_OPTS:
+        leaf = {"in_": {"o": 0}}
+        ws = list(_wrappers(leaf))
+        for w in (ws if full else [ws[0], rng.choice(ws[1:])]):
+            P = Ctx(rng).P
+            P["opts"] = [d]
+            vs = list(vals)
+            if "deepIter" in w:
+                vs = [["list", vs[i:i + 3]] for i in range(0, len(vs), 3)]
+            P.update(value=vs[0], history=_hist(vs[1:]), salt=17)
+            yield {"tree": w, "tree2": copy.deepcopy(w), "purge": False, "params": P, "cfg": dict(_CFG0)}
+
+
 def twin_specs(rng, full):
     """every container validator over containers whose members / keys / values are equal but distinguishable
     (1, 1.0, True, Decimal(1), Fraction(1), int subclass; "a", str subclass; ...), in every order, with
@@ -1319,7 +1380,7 @@ def gen_cases(tier, rng):
     # the regex pool x flags x funcs x forms over derived values; scripted histories over the type pool
     full = tier != "quick"
     blocks = itertools.chain(exhaustive_specs(rng, 2 if full else 1), regex_specs(rng, full), history_specs(rng, full),
-                             liar_specs(rng, full), twin_specs(rng, full), (random_spec(rng) for _ in range(1 << 30)))
+                             liar_specs(rng, full), opts_specs(rng, full), twin_specs(rng, full), (random_spec(rng) for _ in range(1 << 30)))
     for s in blocks:
         try:
             yield complete(s)
